@@ -7,3 +7,11 @@ package epubdoc
 func VerifResolveHref(baseDir, href string) string {
 	return (&Reader{baseDir: baseDir}).resolveHref(href)
 }
+
+// Add-only exports for the verification harness (built only with -tags verif).
+
+// VerifIsFontObfuscation exposes isFontObfuscation.
+func VerifIsFontObfuscation(algorithm string) bool { return isFontObfuscation(algorithm) }
+
+// VerifIsContentFile exposes isContentFile.
+func VerifIsContentFile(uri string) bool { return isContentFile(uri) }
